@@ -129,6 +129,8 @@ def run_case(case, ctx):
                 numpy.fill_diagonal(G, 0.0)
                 pd = qm.PureDephasing(drates=G.copy(), dtype="Lorentzian")
     nL = float(numpy.linalg.norm(L, 2))
+    if nL == 0.0:
+        nL = 1.0            # a generator that vanishes in the rotating frame (masked operators, 1x1 blocks): the identity map, any step will do
     dense = case["dense"]
     Nt = case["Nt"]
     dt = float("%.5g" % (case["x"] * dense / nL))
